@@ -198,6 +198,8 @@ def targetOutsideRoot (dir : List String) (isAbs : Bool) (tgt : List String) : B
   let joined : List Seg := if isAbs then none :: tgt.map some else none :: (dir ++ tgt).map some
   !(cleanRel joined).contains none
 
+/-- `skipped`: ErrSymlinkPointsOutsideRoot — no LINK node is made; since fix b2f92f5d the loader leaves a plain whiteout
+node at the entry's path instead (the path is absent from the view and hides what older layers have there) -/
 inductive Loaded | skipped | loadError | node (key : List String)
 deriving DecidableEq, Repr
 
